@@ -22,7 +22,7 @@ from . import native as N
 def load_contracts(modules):
     for m in modules:
         importlib.import_module(m)
-    return {c.target: c for c in REGISTRY.values() if not c.name_is_alias}
+    return {c.target: c for c in REGISTRY.values() if c.name == c.target}
 
 
 def prove(C, case, reg, contracts, lib):
@@ -146,9 +146,22 @@ def main():
         case = task["case"]
         reg = SourceRegistry()
         lib = Lib()
-        mod, fnode = reg.function(C.target)
+        mod, fnode = reg.function(C.target, C.locate)
         out["function"] = mod.describe(fnode, C.target.split("::", 1)[1])
         out["function"]["slice"] = C.slice_note
+        if C.finite is not None:
+            # exhaustive exact decision over a finite domain read from the AST (level: proved-finite)
+            for oid, ok, detail in C.finite(reg):
+                out["obligations"].append({"id": "%s:%s" % (C.short, oid), "kind": "finite", "line": getattr(fnode, "lineno", 1),
+                                           "verdict": "proved" if ok else "refuted", "paths": 1, "solver_s": 0.0,
+                                           "backend": {"exact-finite": 1}, "detail": detail})
+                if not ok:
+                    out["refutations"].append({"how": "exact-finite", "failed": [oid], "args": {"__dict__": []},
+                                               "outcome": str(detail), "finite": True})
+            out["cover"]["pre_native_samples"] = 1
+            out["wall_s"] = round(time.time() - t0, 3)
+            print(json.dumps(out))
+            return
         rng = random.Random(task.get("seed", 0) * 1000003 + hash(task["contract"]) % 1000)
         # ---- 1. the proof
         run = prove(C, case, reg, contracts, lib)
